@@ -285,6 +285,32 @@ def plan_C08(ctx):
     schema_plan(ctx, ["C08", "C07"], ["8"])
 
 
+OPS_RULE = ("A: every schema reachable by <= MaxLen insertions / erasures (Gen_Schema preset 'ops': base sets, terms whose definitions mention "
+            "earlier, later, erased and never-existing constituents, an ill-typed term, an axiom) x every non-empty selection of its "
+            "constituents plus one with a foreign identifier: TLC (Gen_Ops over SchemaOps.tla) predicts for OpExtractBasis and OpMaxPart "
+            "whether the operation is defined, the members in list order, the new aliases and the rewritten definitions; the real "
+            "operations are executed on a real RSForm and compared (members, order, aliases, definitions, no dependency left behind, "
+            "status and typification kept, source untouched).  BasisTheorem / MaxPartTheorem (least closed sets, independence of the "
+            "list order via the iterated scan) / AnalysisTheorem (from-scratch Analysis of the result = Analysis of the source up to the "
+            "renaming) are TLC invariants on every reachable content.  non-trivial = history of >= 2 calls.  B: Extract events (random "
+            "selections on schemas of up to 12 constituents in the middle of random editing histories) validated by Trace_Schema/PropExtract. ")
+
+
+def plan_C13(ctx):
+    b = vcore.build()
+    h = hbin(b, "h_schema")
+    ctx.rule = OPS_RULE
+    ctx.assumptions = ["OpMaxPart's precondition (selected non-base constituents are undefined or have all dependencies selected) is modelled as the "
+                       "operation's domain; a well-formed selection that is refused is a violation, an accepted one the model refuses is drift",
+                       "known finding K4: a never-resolving name that coincides with a new alias becomes resolvable after the renumbering (status changes)"]
+    cfg = "Gen_Ops_%s.cfg" % ("q" if ctx.quick else "t")
+    ctx.constants = {cfg: open(os.path.join(vcore.TLA, cfg)).read().split("SPECIFICATION")[0].split()}
+    ctx.replay("Gen_Ops.tla", cfg, h, ["--props", "C13"], tag=cfg[:-4], timeout=3400, xss="64m", xmx="12g")
+    ctx.exhaustive = True
+    ntr = 12 if ctx.quick else 120
+    trace_stage(ctx, h, ["--record", str(ntr), "--steps", "200", "--cst", "12", "--extract", "1"], "Trace_Schema.tla", "Trace_Ops.cfg", n_traces=ntr)
+
+
 MODEL_RULE = ("A: every history of <= MaxLen calls of AddBasicElement / SetBasicText (incl. same-size replacements with other keys) / "
               "SetStructureData / ResetDataFor / SetExpressionFor / Erase / Emplace / Calculate / RecalculateAll from a start model "
               "(X1 = {1,2}, D1 := X1, D2 := D1; 'struct' preset adds S1 : B(X1*X1) with data and projections of it), generated by TLC from "
@@ -336,16 +362,16 @@ PLANS = {
     "C16": plan_C16,
     "C15": plan_C15,
     "C17": plan_C17,
-    "C04": plan_C04, "C18": plan_C18, "C11": plan_C11, "C07": plan_C07, "C08": plan_C08, "C09": plan_C09, "C10": plan_C10,
+    "C04": plan_C04, "C18": plan_C18, "C11": plan_C11, "C13": plan_C13, "C07": plan_C07, "C08": plan_C08, "C09": plan_C09, "C10": plan_C10,
     "C01": plan_C01, "C02": plan_C02, "C03": plan_C03, "C05": plan_C05, "C06": plan_C06,
 }
 
-HARNESS_OF = {"C14": "h_graph", "C20": "h_strings", "C16": "h_sdcompact", "C15": "h_values", "C17": "h_refs", "C04": "h_input", "C18": "h_reuse", "C11": "h_model", "C07": "h_schema", "C08": "h_schema", "C09": "h_schema", "C10": "h_schema",
+HARNESS_OF = {"C14": "h_graph", "C20": "h_strings", "C16": "h_sdcompact", "C15": "h_values", "C17": "h_refs", "C04": "h_input", "C18": "h_reuse", "C11": "h_model", "C13": "h_schema", "C07": "h_schema", "C08": "h_schema", "C09": "h_schema", "C10": "h_schema",
               "C01": "h_lang", "C02": "h_lang", "C03": "h_lang", "C05": "h_lang", "C06": "h_lang"}
 TRACE_SPEC_OF = {"C14": ("Trace_C14.tla", "Trace_C14.cfg"), "C20": ("Trace_C20.tla", "Trace_C20.cfg"),
                  "C16": ("Trace_C16.tla", "Trace_C16.cfg"), "C15": ("Trace_C15.tla", "Trace_C15.cfg"),
                  "C17": ("Trace_C17.tla", "Trace_C17.cfg"), "C04": ("Trace_C04.tla", "Trace_C04.cfg"),
-                 "C07": ("Trace_Schema.tla", "Trace_Schema.cfg"), "C09": ("Trace_Schema.tla", "Trace_Schema.cfg")}
+                 "C13": ("Trace_Schema.tla", "Trace_Ops.cfg"), "C07": ("Trace_Schema.tla", "Trace_Schema.cfg"), "C09": ("Trace_Schema.tla", "Trace_Schema.cfg")}
 
 
 def replay(pid, path):
